@@ -1,13 +1,14 @@
 (* C20 -- shutdown is clean in every session state.
    `life_variant` (Gen/LifeSites.v) says how the code is written today at the five places that decide the outcome; it is
    re-read from the Rust source on every run.  The model (model/Life.v) is a finite transition system; the bound of
-   every statement is its state space: the 252 initial states `all_initial` = 4 session states (no debugger /
-   attached and idle / test running / test paused) x the 63 orders in which an editor can deliver `shutdown`, `exit`,
-   a pipe close and a debugger disconnect (each at most once, at least one of the first three), every interleaving of
-   the threads, paths of at most `depth_bound` = 40 steps. *)
+   every statement is its state space: the 378 initial states `all_initial` = 6 session states (no debugger /
+   attached and idle / test running / test paused / debug thread already dead by a panic / dead while holding the
+   context lock) x the 63 orders in which an editor can deliver `shutdown`, `exit`, a pipe close and a debugger
+   disconnect (each at most once, at least one of the first three), every interleaving of the threads, paths of at
+   most `depth_bound` = 40 steps. *)
 From Coq Require Import List Bool Arith.
 Import ListNotations.
-From Mos Require Import model.Life Gen.LifeSites proofs.LifeProofs.
+From Mos Require Import model.Life Gen.LifeSites proofs.LifeProofs proofs.LifeProofs2.
 
 (* From every state the process can be in while the script is delivered, EVERY continuation (any scheduling of main
    thread, stdio writer, debug-server thread and the environment) is finite and ends with the process gone with the
@@ -17,6 +18,14 @@ Theorem C20_exit_clean : forall s0, In s0 all_initial ->
   forall s, reachable life_variant s0 s -> inev life_variant clean_exit depth_bound s.
 Proof. exact exit_clean_repaired. Qed.
 Print Assumptions C20_exit_clean.
+
+(* beyond the property's quantifier: the same when a debugger front end connects to the debug port at an arbitrary
+   moment during the shutdown (276 further initial states: no debugger / attached x the 138 scripts of at most four
+   actions that contain the connect and an LSP action; paths of at most 60 steps) *)
+Theorem C20_exit_clean_with_reconnect : forall s0, In s0 reconnect_initial ->
+  forall s, reachable life_variant s0 s -> inev life_variant clean_exit reconnect_depth s.
+Proof. exact exit_clean_reconnect. Qed.
+Print Assumptions C20_exit_clean_with_reconnect.
 
 (* spelled out: no deadlock (a state without successor is a clean exit) and no path longer than the bound *)
 Theorem C20_no_hang_no_wrong_status : forall s0, In s0 all_initial -> forall s, reachable life_variant s0 s ->
@@ -42,7 +51,7 @@ Print Assumptions C20_panics_refuted.
 (* what a repair has to address beyond the unwrap: with only the unwrap replaced every such run hangs in IoThreads::join
    (a Sender to the writer is still alive); with the sender dropped first, every scenario still has a failing run
    (DebugServer::join while the thread blocks in accept() or has re-entered it because the flag is set only in join) *)
-Theorem C20_unwrap_fix_alone_hangs : forall s0, In s0 all_initial -> st_expect s0 = 0 ->
+Theorem C20_unwrap_fix_alone_hangs : forall s0, In s0 live_initial -> st_expect s0 = 0 ->
   inev v_take_only hung depth_bound s0 /\
   exists s', reachable v_take_drop s0 s' /\ step v_take_drop s' = [] /\ clean_exit s' = false.
 Proof. exact unwrap_fix_alone_hangs. Qed.
@@ -55,6 +64,20 @@ Theorem C20_select_arm_panics :
 Proof. exact select_arm_panics. Qed.
 Print Assumptions C20_select_arm_panics.
 
+(* the repair 051876a alone: with the debug thread already dead by a panic (a request handler panicked), every run that
+   should exit 0 still ended with 101 -- `expect` in DebugServer::join, or, when the thread died holding the context
+   lock, the unwrap of the poisoned LockResult at the next LSP message; tolerating the dead thread is not enough for the
+   poisoned state *)
+Theorem C20_dead_thread_refuted : forall poisoned script, In script all_scripts -> spec_exit_code script = 0 ->
+  inev v_first_repair (exits_with 101) depth_bound (initial_dead poisoned script).
+Proof. exact first_repair_dead_thread_panics. Qed.
+Print Assumptions C20_dead_thread_refuted.
+
+Theorem C20_poison_needs_recovery : forall script, In script all_scripts -> spec_exit_code script = 0 ->
+  inev (mkVariant false true true true false true false) (exits_with 101) depth_bound (initial_dead true script).
+Proof. exact poison_needs_recovery. Qed.
+Print Assumptions C20_poison_needs_recovery.
+
 (* registering the shutdown handler before the blocking accept (instead of waking the thread) is not enough: with no
    debugger attached the signal is only noticed after accept returns, and every run hangs in DebugServer::join *)
 Theorem C20_register_first_not_enough :
@@ -64,7 +87,7 @@ Proof. exact register_first_not_enough. Qed.
 Print Assumptions C20_register_first_not_enough.
 
 (* non-vacuity: the scenario set, and one concrete run of the repaired code *)
-Example C20_scenarios : length all_scripts = 63 /\ length all_initial = 252 /\
+Example C20_scenarios : length all_scripts = 63 /\ length all_initial = 378 /\
   In (initial true MachPaused [LspShutdown; DapDisconnect; LspExit]) all_initial /\
   (exists s0, In s0 all_initial /\ st_expect s0 = 0).
 Proof. split; [reflexivity|]. split; [reflexivity|]. split; [vm_compute; tauto | exact wants_zero_nonempty]. Qed.
